@@ -164,6 +164,12 @@ func runC12(ctx *core.Ctx) {
 		if r.Intn(5) == 0 {
 			ops = append(ops, spec.Op{K: spec.KRewrite, Check: "proxy"})
 		}
+		if r.Intn(5) == 0 {
+			ops = append(ops, spec.Op{K: spec.KDataAttrs})
+		}
+		if r.Intn(4) == 0 {
+			ops = append(ops, spec.Op{K: spec.KSwitch, Names: []string{gen.Pick(r, []string{spec.SwNoFollow, spec.SwNoReferrerFQ, spec.SwTargetBlank})}, B: true})
+		}
 		env := NewEnv(ops)
 		lc := core.LocalCounts{}
 		lc["policies"]++
@@ -179,6 +185,9 @@ func runC12(ctx *core.Ctx) {
 			}
 			if r.Intn(3) == 0 {
 				nd.Attrs = append(nd.Attrs, [2]string{"x", "y"})
+			}
+			if r.Intn(6) == 0 {
+				nd.Attrs = append(nd.Attrs, [2]string{"data-k", "v"})
 			}
 			for rep := 0; rep < 1+r.Intn(2); rep++ {
 				if r.Intn(2) == 0 {
